@@ -25,6 +25,11 @@ type c07Pair struct {
 	B string
 }
 
+type c07AB struct{ A, B int }
+
+// c07Reuse: read into the same destination frame again and again (per size), as a caller with a loop buffer does
+var c07Reuse bool
+
 type c07Case struct {
 	ID      int    `json:"id"`
 	Types   string `json:"types"` // i int, s string, p gob struct, b []byte, f float64
@@ -33,6 +38,7 @@ type c07Case struct {
 	Damage  bool   `json:"damage"`
 	Bursts  int    `json:"bursts"`
 	Seed    int64  `json:"seed"`
+	Reuse   bool   `json:"reuse"`
 }
 
 func c07Type(types string) slicetype.Type {
@@ -49,6 +55,10 @@ func c07Type(types string) slicetype.Type {
 			ts[i] = reflect.TypeOf([]byte(nil))
 		case 'f':
 			ts[i] = reflect.TypeOf(float64(0))
+		case 'm':
+			ts[i] = reflect.TypeOf(map[string]int(nil))
+		case 'a':
+			ts[i] = reflect.TypeOf([2]c07AB{})
 		}
 	}
 	return slicetype.New(ts...)
@@ -68,6 +78,25 @@ func c07Set(v reflect.Value, ch byte, r, c int) {
 		v.SetBytes([]byte{byte(x), byte(x >> 3)})
 	case 'p':
 		v.Set(reflect.ValueOf(c07Pair{A: x, B: fmt.Sprintf("p%d", x%5)}))
+	case 'm':
+		// different key sets from row to row (gob merges into a map that is already there)
+		m := map[string]int{fmt.Sprintf("k%d", x%3): x}
+		if r%2 == 0 {
+			m["e"] = x + 1
+		}
+		v.Set(reflect.ValueOf(m))
+	case 'a':
+		// zero fields in varying places (gob does not transmit zero fields: a stale value would stay)
+		var a [2]c07AB
+		if r%2 == 0 {
+			a[0].A, a[1].B = x, x+1
+		} else {
+			a[0].B, a[1].A = x, x+2
+		}
+		if r%3 == 0 {
+			a = [2]c07AB{}
+		}
+		v.Set(reflect.ValueOf(a))
 	}
 }
 
@@ -89,10 +118,38 @@ func c07ReadAll(data []byte, types string, dests []int) (n int, correct bool, en
 	typ := c07Type(types)
 	r := sliceio.NewDecodingReader(bytes.NewReader(data))
 	ctx := context.Background()
+	type kept struct {
+		f     frame.Frame
+		n0, m int
+	}
+	var (
+		keep  []kept
+		bufs  = map[int]frame.Frame{}
+		reuse = c07Reuse
+	)
+	// rows delivered earlier must still be what they were when the stream is finished (no sharing with later rows)
+	defer func() {
+		for _, kf := range keep {
+			for j := 0; j < kf.m; j++ {
+				for c := range types {
+					if !c07Ok(kf.f.Index(c, j), types[c], kf.n0+j, c) {
+						correct = false
+					}
+				}
+			}
+		}
+	}()
 	for i := 0; i < 100000; i++ {
 		k := dests[i%len(dests)]
-		f := frame.Make(typ, k, k)
+		f, have := bufs[k]
+		if !reuse || !have {
+			f = frame.Make(typ, k, k)
+			bufs[k] = f
+		}
 		m, err := r.Read(ctx, f)
+		if !reuse && m > 0 && m <= k && len(keep) < 64 {
+			keep = append(keep, kept{f, n, m})
+		}
 		reads = append(reads, []int{k, m})
 		if m < 0 || m > k {
 			correct = false
@@ -121,6 +178,7 @@ func c07ReadAll(data []byte, types string, dests []int) (n int, correct bool, en
 
 func c07Run(c *c07Case) (rec vtr.Rec) {
 	rec = vtr.Rec{"id": c.ID, "types": c.Types, "batches": c.Batches, "dests": c.Dests}
+	c07Reuse = c.Reuse
 	defer func() {
 		if e := recover(); e != nil {
 			rec["panic"] = fmt.Sprint(e)
